@@ -247,6 +247,8 @@ func C32(c *Ctx) {
 		"(*raftstore/peer.Peer).markSnapshotApplied": "raft snapshot install moves the applied mark to the snapshot index",
 	}, 2)
 
+	const r4 = "K2.window-rebuild-keeps-pending"
+	watermarkWindowGroup(c, r4)
 	const r3 = "K1.advance-guards"
 	c.Rule(r3, "WaterMark.tryAdvance performs its CompareAndSwap(doneUntil, doneUntil+1) only behind the false edge of slot.Load() > 0 and behind doneUntil < lastIndex; WaitForMark re-checks DoneUntil under the mutex before registering a waiter; Done decrements (addIndex(-1)) and Begin increments (+1)")
 	if fn := c.Fn("utils", "WaterMark.tryAdvance"); fn != nil {
